@@ -9,6 +9,20 @@ try:
     auto = json.load(open(os.path.join(ROOT, "tools", "seeded_auto.json")))
 except Exception:
     auto = {}
+try:
+    first3 = json.load(open(os.path.join(ROOT, "tools", "seeded_round3_first.json")))
+except Exception:
+    first3 = {}
+
+
+def first_class(d):
+    if d["exit"] == 0:
+        return "MISSED (exit 0)"
+    if d.get("no_failing_input_only"):
+        return "broken tie only (" + ", ".join(d["what"])[:60] + ")"
+    return "caught"
+
+
 ids = sorted(set(hand) | set(auto) | {d for d in os.listdir(os.path.join(ROOT, "seeded")) if re.fullmatch(r"C\d\d-\d+", d)})
 
 def meta(i):
@@ -27,6 +41,15 @@ for i in ids:
     if len(summ) > 170: summ = summ[:170] + "…"
     h = hand.get(i, ["", ""])
     a = auto.get(i)
+    if i not in hand and i in first3:
+        f = first_class(first3[i])
+        now = ""
+        if a and a["violations"] and not a["no_failing_input_only"]:
+            now = ", ".join(sorted({w.split(":")[2] for w in a["what"] if w.count(":") >= 2}))[:90]
+        note = "round 3; first run: " + f
+        if f != "caught" and now:
+            note += "; STRENGTHENED by the property's builder"
+        h = [now or "(see last regression run)", note]
     if a:
         if a["violations"] == 0:
             last = "**not reported** (exit %s)" % a["exit"]
@@ -37,7 +60,7 @@ for i in ids:
         last += " [seed %s, %s s]" % (a["seed"], a["secs"])
     else:
         last = "—"
-    conf = "" if os.path.isdir(os.path.join(ROOT, "seeded", i)) else " (confirmation by coordinator pending)"
+    conf = "" if os.path.isdir(os.path.join(ROOT, "seeded", i)) else " (patch file lost with an earlier sandbox; result of the last run while it existed)"
     rows.append("| %s | %s | %s | %s | %s%s |" % (i, summ, h[0].replace("|", "\\|"), last, h[1].replace("|", "\\|"), conf))
 text = "\n".join(rows) + "\n"
 path = os.path.join(ROOT, "DESIGN.md")
